@@ -2,6 +2,7 @@ package props
 
 import (
 	"fmt"
+	"math"
 	"testing"
 
 	"pgregory.net/rapid"
@@ -33,6 +34,11 @@ func storeMachine(t *rapid.T, prop string, kind gen.StoreKind) {
 		span = rapid.SampledFrom([]int{3, 40, 100, 300, 2000}).Draw(t, "narrowspan")
 	}
 	base := gen.ClusterBase(span+2).Draw(t, "base")
+	if kind.Name == "sparse" && rapid.IntRange(0, 3).Draw(t, "fullrange") == 0 {
+		// the sparse store has no memory constraint: indexes anywhere in int32 (encoded index deltas then exceed 32 bits)
+		base, span = 0, math.MaxInt32-2
+		cl.label("sparse-full-int32-range")
+	}
 	g := &opGen{base: base, span: span, bud: bud, kinds: storeOpKinds}
 	if kind.Name == "paginated" {
 		// more bursts of unit adds: they are what fills the buffer, triggers compaction and creates pages
